@@ -47,6 +47,7 @@
 #include "ompl/util/Exception.h"
 #include "ompl/util/RandomNumbers.h"
 
+#include <execinfo.h>
 #include <sys/resource.h>
 #include <sys/wait.h>
 #include <cmath>
@@ -1110,8 +1111,10 @@ struct Recorder
                     {
                         point(c, false);
                         nr = env.state(c);
+                        // small and LARGE spreads: a sampler that gives up must still return an on-manifold state
                         static const double mul[] = {0.5, 3, 10, 40};
-                        spread = p.delta * mul[i % 4];
+                        static const double wide[] = {1.0, 5.0};
+                        spread = i % 6 < 4 ? p.delta * mul[i % 6] : wide[i % 6 - 4];
                     }
                     if (mode[0] == 'U')
                         s->sampleUniform(st);
@@ -1437,6 +1440,30 @@ static void planRun(const Manifold &m, char kind, const std::string &planner, in
 }
 
 // ---------------------------------------------------------------------- child processes
+// A planner run that dies: whose crash is it?  The stack decides.  A frame of the constrained-space code
+// (the subject of this property) makes it a Crash record, which no specification accepts; a crash inside
+// the planner's own data structures is the business of the planner properties and is recorded as
+// PlannerDied (accepted, counted, reported).
+static void plannerCrash(int sig)
+{
+    void *frames[64];
+    const int n = backtrace(frames, 64);
+    char **names = backtrace_symbols(frames, n);
+    bool spaceCode = false;
+    for (int i = 0; names != nullptr && i < n; ++i)
+        for (const char *pat : {"AtlasStateSpace", "AtlasChart", "AtlasStateSampler", "TangentBundle", "ProjectedState",
+                                "ConstrainedStateSpace", "ConstrainedMotionValidator", "ConstrainedSpaceInformation",
+                                "ConstrainedValidStateSampler", "4base10Constraint", "ConstraintIntersection"})
+            if (strstr(names[i], pat) != nullptr)
+                spaceCode = true;
+    fprintf(stdout, "CRASH signal %d in %s\n", sig, spaceCode ? "constrained-space code" : "planner code");
+    if (names != nullptr)
+        for (int i = 0; i < n && i < 12; ++i)
+            fprintf(stdout, "  %s\n", names[i]);
+    fflush(stdout);
+    _exit(spaceCode ? 71 : 72);
+}
+
 struct Job
 {
     bool plan;
@@ -1462,7 +1489,12 @@ static void runJob(const Job &j, std::vector<json> &out, bool verbose)
     ompl::msg::setLogLevel(ompl::msg::LOG_NONE);
     const Manifold &m = manifold(j.mf);
     if (j.plan)
+    {
+        signal(SIGSEGV, plannerCrash);
+        signal(SIGFPE, plannerCrash);
+        signal(SIGABRT, plannerCrash);
         planRun(m, j.kind, j.planner, j.cfg, vt::envSeed(), j.budget, out);
+    }
     else
     {
         Recorder r(m, j.kind, paramsFor(vt::envSeed(), j.cfg), j.cfg, seed, verbose);
@@ -1566,7 +1598,8 @@ static int cmdRecord(const std::string &tracePath, const std::string &tier, int 
         std::ifstream log(partPath(i) + ".log");
         std::string line;
         while (std::getline(log, line))
-            if (line.rfind("BAD ", 0) == 0 || line.rfind("FRAMEWORK", 0) == 0)
+            if (line.rfind("BAD ", 0) == 0 || line.rfind("FRAMEWORK", 0) == 0 || line.rfind("CRASH", 0) == 0 ||
+                line.rfind("  ", 0) == 0)
                 std::cout << line << std::endl;
         const bool okExit = WIFEXITED(status[i]) && WEXITSTATUS(status[i]) == 0;
         if (WIFEXITED(status[i]) && WEXITSTATUS(status[i]) == 4)
@@ -1595,12 +1628,13 @@ static int cmdRecord(const std::string &tracePath, const std::string &tier, int 
             ++crashed;
             json rec = jobHead(all[i]);
             const bool hang = WIFSIGNALED(status[i]) && (WTERMSIG(status[i]) == SIGXCPU || WTERMSIG(status[i]) == SIGKILL);
-            rec["e"] = hang ? "Hang" : "Crash";
+            const bool plannerOwn = all[i].plan && WIFEXITED(status[i]) && WEXITSTATUS(status[i]) == 72;
+            rec["e"] = hang ? "Hang" : plannerOwn ? "PlannerDied" : "Crash";
             rec["what"] = WIFSIGNALED(status[i]) ? std::string("signal ") + std::to_string(WTERMSIG(status[i]))
                                                  : std::string("exit ") + std::to_string(WEXITSTATUS(status[i]));
             trace.emit(rec);
             ++events;
-            std::cout << "BAD " << json{{"what", "child-died"}, {"job", rec}}.dump() << std::endl;
+            std::cout << (plannerOwn ? "DIED " : "BAD ") << json{{"what", "child-died"}, {"job", rec}}.dump() << std::endl;
         }
         unlink(partPath(i).c_str());
         unlink((partPath(i) + ".log").c_str());
@@ -1609,7 +1643,7 @@ static int cmdRecord(const std::string &tracePath, const std::string &tier, int 
     std::cout << "SUMMARY "
               << json{{"jobs", all.size()}, {"events", events}, {"died", crashed}, {"per_event", perEvent},
                       {"per_space", perSpace}, {"per_manifold", perManifold}, {"cells", cells},
-                      {"plan_status", planStatus}, {"paths_per_planner", perPlanner}}
+                      {"plan_status", planStatus}, {"paths_per_planner", perPlanner}, {"planner_died", perEvent["PlannerDied"]}}
                      .dump()
               << std::endl;
     return 0;
